@@ -272,7 +272,24 @@ pub fn check_repeat(a: &Art, info: &mut CaseInfo) -> Result<(), String> {
 	// fresh key objects and issuer
 	let env2 = env_for(a)?;
 	let third = produce(a, &env2)?;
-	compare(&first, &third, &env.signer, "after rebuilding keys and issuer from the same inputs")
+	compare(&first, &third, &env.signer, "after rebuilding keys and issuer from the same inputs")?;
+	// one key in both roles: the issuer's key pair is also the subject key, once as the very same
+	// object and once as an equal key loaded separately. Parameters, subject public key and issuer
+	// are the same in both calls.
+	if let (Art::Cert(c), Some((ic, ik)), Some((_, ik2))) = (a, &env.issuer, &env2.issuer) {
+		info.class("one-key-both-roles");
+		let with = |subject: &rcgen::KeyPair| -> Result<Produced, String> {
+			match mk::cert_params(&c.spec)?.signed_by(subject, ic, ik) {
+				Ok(cert) => Ok(Produced { tbs: decode_cert(cert.der())?.0.tbs_raw, full: cert.der().to_vec(), refused: None }),
+				Err(e) => refused(e),
+			}
+		};
+		let same_object = with(ik)?;
+		let equal_copy = with(ik2)?;
+		let signer = c.issuer.as_ref().map(|i| i.key).unwrap_or(env.signer);
+		compare(&same_object, &equal_copy, &signer, "between the issuer's key object and an equal copy of it used as the subject key")?;
+	}
+	Ok(())
 }
 
 #[derive(Clone, Debug, Serialize, Deserialize, PartialEq, Eq, Hash)]
